@@ -29,7 +29,7 @@ def model_kind(k, inline):
 
 class C05(AstKindProp):
     id = "C05"
-    quick_cases = 500
+    quick_cases = 900
     thorough_cases = 12000
     rule = (
         "case = (IR, chain of 2-3 distinct kinds out of rest/numpydoc/google/class/function/method/argparse, inline-types "
